@@ -411,10 +411,8 @@ def run(ctx):
         ck.expect(okd, 'C02-D4', pl.qual, '_fetch_one dominated, per iteration, by a true _should_fetch_reason() verdict',
                   'a redirect hop (or the first request) can be fetched without a fresh true filter verdict', pl.loc(fetch.stmt))
         # the request checked is the one fetched
-        oka = any(norm_text(s) == 'self._item_session.request = self._web_client_session.next_request()' for s in walk_no_nested(pl.node) if isinstance(s, ast.Assign))
-        okb = any('self._item_session.request' in norm_text(c) for c in U.calls(fetch.stmt, attr='_fetch_one'))
-        ck.expect(oka and okb, 'C02-D4', pl.qual, 'the request judged is the next request of the web session and the one fetched',
-                  'the verdict is computed for a different request than the one sent', pl.loc())
+        from .common import current_request_rule
+        current_request_rule(ctx, 'C02-D4')
     pr = repo.func(WEB + '._process_robots')
     rcfg = ctx.cfg(pr)
     ret_true = [n for n in rcfg.nodes if n.kind == 'return' and not (isinstance(n.stmt.value, ast.Constant) and not n.stmt.value.value)]
@@ -476,6 +474,10 @@ def run(ctx):
     ck.rule('C02-D6', 'link records carry the depth / inline depth / parent / root the filters rely on: add_child_url and '
                       'child_url_record compute them from the parent record in the documented way and agree with each other')
     child_record_rules(ctx, 'C02-D6')
+    # ... and the record read back from the table carries the parent / root that were stored (shared schema rule of C14)
+    from . import c14 as _c14
+    from .common import RemapCtx as _RemapCtx
+    _c14.d1_schema(_RemapCtx(ctx, {'C14-D1': 'C02-D6'}))
 
     # ------------------------------------------------------------------ D5
     TASK = 'wpull.application.tasks.rule'
